@@ -202,7 +202,9 @@ Definition decide (chk : bool) (sysr op : N) (t : typ) (fld roles : list N) (rul
   end.
 
 (* ---- IsOperationAllowed ---- *)
-Inductive outcome := OAllow | ODeny | OErr (e : N) | OCrash.
+(* OMutated: the call changed a slice that belongs to the caller (its role list or field list); the model never
+   answers that, and no check accepts it *)
+Inductive outcome := OAllow | ODeny | OErr (e : N) | OCrash | OMutated.
 Definition e_notfound : N := 1.  Definition e_incompatible : N := 2.
 Definition e_unsupported : N := 3.  Definition e_missed : N := 4.
 
